@@ -302,7 +302,9 @@ func (c03) Run(t *testing.T, scenario any, job *Job, res *Result) {
 			// never come: termination under damage is not this property
 			res.Probe("damaged_stream_hangs", 1)
 		}
-		success := s.Outcome == kernel.Finished && s.ClientErr == nil && s.ServerErr == nil
+		// success is what the user's process (the client) reports, whichever
+		// side it plays: an error that only the server knows about is no report
+		success := s.Outcome == kernel.Finished && s.ClientErr == nil
 		for name, sn := range srcSum {
 			a, ok := after[name]
 			b, had := before[name]
